@@ -25,11 +25,12 @@ func VH_C12_sam_sched() {
 		vAssert("C12.sam.no-error", err == nil)
 		return string(w.buf)
 	}
-	base := run(1)
 	threads := 1 + vChoice("threads", 3)
 	vRaceDetect()
 	vSchedExplore(vParam("DEV"))
-	vAssert("C12.sam.output-independent-of-schedule", run(threads) == base)
+	got := run(threads)
+	vSchedExplore(0)
+	vAssert("C12.sam.output-independent-of-schedule", got == run(1))
 }
 
 // VH_C12_pairwriter_arrival: toPairAlign's stdout writer restores input order for every arrival order.
@@ -57,4 +58,50 @@ func VH_C12_pairwriter_arrival() {
 	writePairwiseAlignment("stdout", 0, ch, cDone, cErr, false)
 	got := vStdout()
 	vAssert("C12.sam.pair-writer-restores-input-order", got == exp && len(cDone) == 1 && len(cErr) == 0)
+}
+
+// VH_C12_sam_long: the same question as VH_C12_sam_sched on inputs beyond the small ones: a 150-base reference
+// and queries with deletions and insertions of 129-131 bases (longer than any fixed-size scratch buffer one is
+// likely to meet), 1..3 threads, schedules explored, data-race analysis on.
+func VH_C12_sam_long() {
+	vNumCPU(2)
+	ref := make([]byte, 150)
+	for i := range ref {
+		ref[i] = "ACGT"[i%4]
+	}
+	rep := func(b byte, n int) string {
+		s := make([]byte, n)
+		for i := range s {
+			s[i] = b
+		}
+		return string(s)
+	}
+	samTxt := "@HD\tVN:1.6\n@SQ\tSN:ref\tLN:150\n" +
+		"q1\t0\tref\t1\t60\t5M130D15M\t*\t0\t0\t" + rep('A', 20) + "\t*\n" +
+		"q2\t0\tref\t1\t60\t10M129D11M\t*\t0\t0\t" + rep('C', 21) + "\t*\n" +
+		"q3\t0\tref\t1\t60\t4M131I4M131D11M\t*\t0\t0\t" + rep('G', 150) + "\t*\n" +
+		"q4\t0\tref\t1\t60\t150M\t*\t0\t0\t" + string(ref) + "\t*\n"
+	refFasta := []byte(">ref\n" + string(ref) + "\n")
+	mode := vChoice("mode", 2)
+	run := func(threads int) string {
+		w := &vCapture{}
+		var err error
+		if mode == 0 {
+			err = ToMultiAlign(bytes.NewReader([]byte(samTxt)), w, 0, -1, -1, false, threads)
+		} else {
+			vStdoutCapture()
+			err = ToPairAlign(bytes.NewReader([]byte(samTxt)), bytes.NewReader(refFasta), "stdout", 0, -1, -1, false, false, threads)
+			out := vStdout()
+			vAssert("C12.long.no-error", err == nil)
+			return out
+		}
+		vAssert("C12.long.no-error", err == nil)
+		return string(w.buf)
+	}
+	threads := 1 + vChoice("threads", 3)
+	vRaceDetect()
+	vSchedExplore(vParam("DEV"))
+	got := run(threads)
+	vSchedExplore(0)
+	vAssert("C12.long.output-independent-of-schedule", got == run(1))
 }
